@@ -92,22 +92,43 @@ def validated_before_apply(ctx, p):
     # LogReader::next: EndRecord under validate is checksum-guarded
     nb = ctx.body("log::LogReader::<'a>::next")
     if nb:
-        val = lib.prune_bool_field(nb, '.LogReader.validate', True)
         ends = [bi for bi in nb.normal_blocks() for s in nb.blocks[bi]['s'] if s['k'] == 'assign' and s['r']['k'] == 'agg' and s['r']['ak'] == 'Adt:log::LogAction::EndRecord']
-        ctx.ob(p + 'k next-anchors', 'anchor', nb.path, 'LogReader::next builds EndRecord in one place and branches on self.validate', len(ends) == 1 and bool(val), 'ends %s val %s' % (ends, val))
-        fin = nb.call_sites('re:crc32fast::Hasher::finalize$', 'crc32fast::Hasher::finalize')
-        for e in ends:
-            lib.precedes(ctx, p + 'l checksum-computed-before-EndRecord', nb, fin, [e], 'with validation on, EndRecord is produced only after the CRC was finalized', removed_edges=val)
+        cb, cends = nb, ends          # the body that verifies the checksum, and the blocks that stand for "verified"
+        if not nb.call_sites('re:crc32fast::Hasher::finalize$', 'crc32fast::Hasher::finalize'):
+            # the verification may sit in a private helper of `next` that answers Result<()>: its Ok returns stand for "verified", and
+            # EndRecord is built in `next` only on the Ok outcome of its call
+            for hb in lib.family(F, nb.path):
+                if hb is nb or not hb.call_sites('re:crc32fast::Hasher::finalize$', 'crc32fast::Hasher::finalize') or not str(hb.locals[0]).startswith('std::result::Result<'):
+                    continue
+                hs = nb.call_sites(hb.path)
+                if len(ends) == 1 and hs and nb.find_path([0], set(ends), removed=set(hs)) is None and all(nb.find_path([x], set(ends)) is None for h in hs for x in lib.result_err_targets(nb, h)):
+                    cb, cends = hb, sorted(set(hb.return_blocks()) and set(core.ok_exit_blocks(hb)))
+        val = lib.prune_bool_field(cb, '.LogReader.validate', True)
+        ctx.ob(p + 'k next-anchors', 'anchor', nb.path, 'LogReader::next builds EndRecord in one place and branches on self.validate (itself, or in the helper that verifies the checksum for it)', len(ends) == 1 and bool(val) and bool(cends), 'ends %s val %s' % (ends, val))
+        fin = cb.call_sites('re:crc32fast::Hasher::finalize$', 'crc32fast::Hasher::finalize')
+        for e in cends[:1] if cb is nb else [None]:
+            tgt = cends
+            lib.precedes(ctx, p + 'l checksum-computed-before-EndRecord', cb, fin, tgt, 'with validation on, EndRecord is produced only after the CRC was finalized', removed_edges=val)
             # equality guard: on the path through finalize, the mismatch edge returns Err
             ok = False
-            for (s, yes, no) in nb.control_deps(e):
-                pol = lib.eq_polarity(nb, s)
-                if pol:
-                    eq_t, ne_t, ops = pol
-                    sl = backward_slice(nb, [op_place(o) for o in ops if op_place(o)])
-                    if eq_t in yes and ne_t in no and any('finalize' in c for c in sl.calls) and any('from_le_bytes' in c for c in sl.calls):
-                        ok = True
-            ctx.ob(p + 'm EndRecord-only-if-crc-equal', 'K3-guard', nb.path, 'EndRecord is returned on the equal edge of (stored checksum == computed CRC); mismatch -> Corruption', ok, '')
+            for e2 in tgt:
+                for (s_, yes, no) in cb.control_deps(e2):
+                    pol = lib.eq_polarity(cb, s_)
+                    if pol:
+                        eq_t, ne_t, ops = pol
+                        sl = backward_slice(cb, [op_place(o) for o in ops if op_place(o)])
+                        if eq_t in yes and ne_t in no and any('finalize' in c for c in sl.calls) and any('from_le_bytes' in c for c in sl.calls):
+                            ok = True
+            if cb is not nb and not ok:
+                # in the helper the success return joins both branches of `if validate`: the mismatch edge must be an error exit
+                for bi in cb.normal_blocks():
+                    pol = lib.eq_polarity(cb, bi) if cb.term(bi)['k'] == 'switch' else None
+                    if pol:
+                        eq_t, ne_t, ops = pol
+                        sl = backward_slice(cb, [op_place(o) for o in ops if op_place(o)])
+                        if any('finalize' in c for c in sl.calls) and any('from_le_bytes' in c for c in sl.calls) and cb.find_path([ne_t], set(core.ok_exit_blocks(cb)), removed=core.error_exit_blocks(cb)) is None:
+                            ok = True
+            ctx.ob(p + 'm EndRecord-only-if-crc-equal', 'K3-guard', cb.path, 'EndRecord is returned on the equal edge of (stored checksum == computed CRC); mismatch -> Corruption', ok, '')
         # every byte consumed feeds the CRC when validating: update() in read_buf closure and in read()
     # every byte consumed feeds the CRC when validating: each read_exact on the log file in a LogReader method (or a closure of
     # one) is followed on every success path by Hasher::update - except the read of the stored checksum word itself, which is
